@@ -25,6 +25,7 @@ fn fail(sig: &str, msg: String, decoded: &dyn Fn() -> Value) -> Failure {
 pub type DefKeys = BTreeMap<u32, String>;
 
 pub fn def_keys(prog: &Program, low: &Lowered, cf_ok: &[bool], perm: Option<&[u32]>) -> DefKeys {
+    let classes = prog.shape_classes();
     let mut m = BTreeMap::new();
     for (k, inst) in low.insts.iter().enumerate() {
         if !cf_ok[k] {
@@ -35,8 +36,10 @@ pub fn def_keys(prog: &Program, low: &Lowered, cf_ok: &[bool], perm: Option<&[u3
         if d.params.iter().any(|p| p.config) {
             continue;
         }
-        // textual identity of the definition (two versions with identical text count as one)
-        let key = format!("{:?}|{:?}|{:?}", d.path, d.params, d.body);
+        // identity of the definition as the registry's type graph sees it: path, parameter list and wire-shape
+        // class (two versions with identical text count as one, and so do two copies whose references go to equal
+        // copies - they differ in the ids their fields point to, in nothing else)
+        let key = format!("{:?}|{:?}|shape-class {}", d.path, d.params, classes[inst.def]);
         let id = perm.map(|p| p[inst.id as usize]).unwrap_or(inst.id);
         m.insert(id, key);
     }
